@@ -54,6 +54,25 @@ pub(crate) const REGIONS: &[Region] = &[
     Region::US915,
 ];
 
+/// the region under test: chosen by `--cfg lrv_region="..."` (set by the build configuration),
+/// so that it does not depend on which other region features happen to be enabled
+pub(crate) fn region_ut(ri: usize) -> Region {
+    #[cfg(lrv_region = "eu868")]
+    { let _ = ri; return Region::EU868; }
+    #[cfg(lrv_region = "eu433")]
+    { let _ = ri; return Region::EU433; }
+    #[cfg(lrv_region = "in865")]
+    { let _ = ri; return Region::IN865; }
+    #[cfg(lrv_region = "us915")]
+    { let _ = ri; return Region::US915; }
+    #[cfg(lrv_region = "au915")]
+    { let _ = ri; return Region::AU915; }
+    #[cfg(lrv_region = "as923")]
+    { return [Region::AS923_1, Region::AS923_2, Region::AS923_3, Region::AS923_4][ri]; }
+    #[allow(unreachable_code)]
+    REGIONS[ri]
+}
+
 pub(crate) fn is_fixed(r: Region) -> bool {
     match r {
         #[cfg(feature = "region-au915")]
